@@ -22,6 +22,15 @@ for i, ln in enumerate(src):
     elif t.endswith(';') and KEY.search(t) and not re.match(r'^(return|using|typedef|template|class|struct|friend|static_assert|throw|break|continue)\b', t) \
             and '(' in t and not re.match(r'^[\w:<>,\s\*&]+\s+\w+\s*(\{[^}]*\})?;$', t) and not re.match(r'^(std::|typename|const|auto|bool|int|T\b|size_t)', t):
         cands.append((i, 'delete'))
+# lines already covered by earlier scans (logs kept under benign/)
+import glob
+done = set()
+for lg in glob.glob(os.path.join(V, 'benign', 'mutscan*.log')):
+    for l in open(lg):
+        mm = re.match(r'^(\S+):(\d+) (delete|negate) exit=', l)
+        if mm and mm.group(1) == rel:
+            done.add((int(mm.group(2)) - 1, mm.group(3)))
+cands = [c for c in cands if c not in done]
 random.seed(seed)
 random.shuffle(cands)
 for i, kind in cands[:n]:
